@@ -27,10 +27,84 @@ def conv(rows):
     return [tuple(int(v) if isinstance(v, bool) else v for v in r) for r in rows]
 
 
+# ---- aggregates over every numeric column type (the qgen schemas only have INT columns)
+NUM_SETUP = ["create table n(g int, si smallint, bi bigint, d double)",
+             "insert into n values (1, 1, 10000000000, 1.5), (1, 2, 20000000000, 2.5), (2, 3, 1, 0.5)",
+             "insert into n values (2, null, null, null), (1, -5, -7, -1.5), (3, null, null, null)",
+             "insert into n values (2, 7, 9, 4.0), (4, 1, 1, 1.0)"]
+
+
+def typed_queries():
+    qs = []
+    for col in ("si", "bi", "d", "g"):
+        for agg in ("sum", "min", "max", "count"):
+            qs.append(f"select {agg}({col}) from n")
+            qs.append(f"select g, {agg}({col}) from n group by g")
+            qs.append(f"select g, {agg}({col}) from n where g < 3 group by g")
+            qs.append(f"select {agg}({col}) from n where g > 100")
+            qs.append(f"select g, {col}, {agg}({col}) over (partition by g) from n")
+        qs.append(f"select count(distinct {col}) from n")
+        qs.append(f"select g, sum({col}), count({col}), min({col}), max({col}) from n group by g")
+        qs.append(f"select sum({col} + 1), sum({col} * 2) from n")
+    qs.append("select sum(si), sum(bi), sum(d) from n")
+    qs.append("select g, sum(si + bi), max(d + si) from n group by g")
+    return qs
+
+
+def numrow(r):
+    out = []
+    for v in r:
+        if isinstance(v, bool):
+            v = int(v)
+        if v is not None:
+            try:
+                v = round(float(v), 9)
+            except (TypeError, ValueError):
+                pass
+        out.append(v)
+    return tuple(out)
+
+
+def typed_aggregates(chk):
+    qs = typed_queries()
+    con = sqlite3.connect(":memory:")
+    for s_ in NUM_SETUP:
+        con.execute(s_)
+    refs = []
+    for q in qs:
+        try:
+            refs.append([tuple(r) for r in con.execute(q).fetchall()])
+        except sqlite3.Error:
+            refs.append(None)
+    con.close()
+    scripts = [{"id": 0, "engine": e, "opts": o or {}, "steps": [{"sql": x} for x in NUM_SETUP + qs]} for (e, o, _) in ENGINES]
+    for (e, o, _), r in zip(ENGINES, runner.run_many("sql", scripts, timeout=120)):
+        meta = {"db": "typed:n", "engine": e, "layout": o}
+        if r.get("abort"):
+            chk.fail(core.case_id(dict(meta, sql="<all>")), "abort", meta, r)
+            continue
+        for q, got, ref in zip(qs, r["results"][len(NUM_SETUP):], refs):
+            c = dict(meta, sql=q)
+            cid = core.case_id(c)
+            st = U.status(got)
+            if ref is None:
+                chk.skip("reference-rejects")
+            elif st in ("err:bind", "err:parse"):
+                chk.skip("risinglight-rejects-at-bind")
+            elif st != "rows":
+                chk.fail(cid, "no-answer:" + st.split(":")[0] + ("@window" if " over (" in q else "@typed-agg"), c, {"risinglight": got, "sqlite": ref})
+            else:
+                a, b = U.mset([numrow(x) for x in U.decode(got)]), U.mset([numrow(x) for x in ref])
+                if a != b:
+                    chk.fail(cid, "rows-differ" + ("@window" if " over (" in q else "@typed-agg"), c, {"risinglight": U.decode(got), "sqlite": ref})
+                else:
+                    chk.ok(cid, nontrivial=len(ref) > 0, outcome=f"rows={min(len(ref), 5)}", sample={"case": c, "rows": ref[:3]})
+
+
 def run(tier, seed):
     chk = core.Check("C02", tier, "exploration",
                      "qgen corpus restricted to constructs on which SQLite and risinglight define the same answer (see checks/dialect.md) x all "
-                     "databases x {memory, disk with several row-sets}, optimizer on; reference = SQLite 3.40 on identical schema/data; "
+                     "databases x {memory, disk with several row-sets}, optimizer on; plus 90 aggregate / GROUP BY / window queries over SMALLINT, BIGINT, DOUBLE and INT columns with NULLs in several chunks; reference = SQLite 3.40 on identical schema/data; "
                      "a case = (db, engine, sql); non-trivial = reference result non-empty", seed)
     qs = [x for x in qgen.queries(tier) if x["sqlite"] and x["det"]]
     items = []
@@ -77,6 +151,7 @@ def run(tier, seed):
                     chk.fail(cid, "order-differs@" + x["feat"][0], c, {"risinglight": rows, "sqlite": rv})
                     continue
             chk.ok(cid, nontrivial=len(rv) > 0, outcome=f"rows={min(len(rv), 5)}", sample={"case": c, "rows": rv[:3]})
+    typed_aggregates(chk)
     chk.assumptions += ["SQLite 3.40 is the reference for the subset listed in checks/dialect.md; NULLs sort first in both",
                         "queries risinglight rejects at bind time are counted as unsupported, not as wrong answers"]
     chk.extra.update(queries=len(qs), databases=len(qgen.databases(tier)))
